@@ -63,7 +63,7 @@ ASSUMPTIONS = [
     'the engine (cythonbiogeme) is trusted to evaluate a plain formula; values are additionally compared with stdlib math '
     '(rel 1e-10) on a 4-row table at two parameter points',
     'a Configuration object changes only through its public `selections` property (valid, complete assignments); in-place '
-    'edits of the returned list and the state left behind by a refused (duplicate controller) assignment are outside the statement',
+    'edits of the returned list are outside the statement; after a REFUSED assignment (duplicate controller) the object must still be the configuration of its last accepted assignment',
     'structures are bounded: <= 3 controllers, <= 4 selections per controller, <= 12 configurations per structure (24 in the thorough tier)',
 ]
 ANCHOR_FILES = ['src/biogeme/catalog.py', 'src/biogeme/controller.py', 'src/biogeme/configuration.py',
@@ -1813,6 +1813,24 @@ def _confobj(task, st, space, rec):
                 text = describe(kind, ai, pi, assigns)
                 ok = check(conf, bi, pattern, text, consume=(qi in reduced))
                 nhist += 1
+                if depth == 1 and qi in reduced:
+                    # the history goes on with an assignment the library refuses (one controller listed twice): the
+                    # object must still be the configuration of its last accepted assignment, for every observer
+                    conf2 = history(kind, ai, pi, assigns)
+                    c0 = space.names[0]
+                    others = [s_ for s_ in space.ctrl[c0] if s_ != dict(pairs_of[bi])[c0]]
+                    if conf2 is not None and others:
+                        from biogeme.exceptions import BiogemeError
+                        bad_list = tuples(perms_of[bi][qi]) + [SelectionTuple(controller=c0, selection=others[0])]
+                        try:
+                            conf2.selections = bad_list
+                            rec.count('confobj_duplicate_controller_assignment_accepted')
+                        except BiogemeError:
+                            rec.transition()
+                            ok2 = check(conf2, bi, pattern + '+refused-assignment',
+                                        text + f' ; selections = {[tuple(t_) for t_ in bad_list]} (refused: BiogemeError)', consume=False)
+                            rec.case(('cobj-refused', st['name'], kind, ai, pi, assigns), (kind, ai, pi, assigns, 'refused', ok2),
+                                     outcome=('cobj-refused', kind, ok2))
                 rec.case(('cobj', st['name'], kind, ai, pi, assigns) if nontrivial else None,
                          (kind, ai, pi, assigns, _grab(lambda: str(conf))), outcome=('cobj', kind, depth, ok))
             # ---- families: one object per configuration of the product, all with the same past
